@@ -434,6 +434,10 @@ func (fi Final) Finish(e *zerolog.Event) {
 		e.Msg(fi.Text)
 	case "Msgf":
 		e.Msgf("%s", fi.Text)
+	case "MsgfRaw": // the text IS the format, no arguments: fmt semantics still apply ("%%" is one percent sign)
+		e.Msgf(fi.Text)
+	case "MsgfArgs":
+		e.Msgf("%d%%/%s|%v", 7, fi.Text, nil)
 	case "MsgFunc":
 		e.MsgFunc(func() string { return fi.Text })
 	case "Send":
@@ -445,8 +449,13 @@ func (fi Final) Finish(e *zerolog.Event) {
 
 // Message is the message text of the finaliser.
 func (fi Final) Message() string {
-	if fi.Kind == "Send" {
+	switch fi.Kind {
+	case "Send":
 		return ""
+	case "MsgfRaw":
+		return fmt.Sprintf(fi.Text)
+	case "MsgfArgs":
+		return fmt.Sprintf("%d%%/%s|%v", 7, fi.Text, nil)
 	}
 	return fi.Text
 }
